@@ -329,6 +329,41 @@ pub fn replay(a: &Args) -> i32 {
             }
         }
     }
+    // (e) bincode payloads whose length prefixes claim absurd sizes: an error status, never a panic
+    // or an attempt to allocate what the prefix says
+    for len in [u64::MAX, (isize::MAX as u64) + 1, isize::MAX as u64, 1u64 << 40, 1 << 32, 1 << 31] {
+        for tail in [0usize, 3, 64] {
+            evaluations += 1;
+            let mut junk = vec![1u8, 0, 0, 0]; // a = 1
+            junk.extend_from_slice(&len.to_le_bytes()); // s: length prefix
+            junk.extend(std::iter::repeat(b'x').take(tail));
+            let mut junk_opt = vec![1u8]; // Some(..)
+            junk_opt.extend_from_slice(&junk);
+            for (path, body) in [("/Greeter/SayHello", junk.clone()), ("/Greet/SayHello", junk.clone()), ("/Greet/x", junk.clone()), ("/c17.Probe/OptB", junk_opt.clone())] {
+                let mut r = router.clone();
+                let b = Bytes::from(body);
+                let res = std::panic::catch_unwind(std::panic::AssertUnwindSafe(|| rt.block_on(r.call(Request::new(b).with_route(path)))));
+                let ran = log.lock().unwrap().drain(..).collect::<Vec<_>>();
+                match res {
+                    Ok(Ok(resp)) if resp.status() != StatusCode::Success && ran.is_empty() => {}
+                    Ok(Ok(resp)) => mismatches.push(json!({"what": format!("{path}: a bincode payload with length prefix {len} was answered {:?}, handlers run {ran:?}", resp.status())})),
+                    Ok(Err(_)) => {}
+                    Err(_) => mismatches.push(json!({"what": format!("{path}: the generated server panicked on a bincode payload whose length prefix claims {len} bytes")})),
+                }
+            }
+            let b2 = Bytes::from(junk.clone());
+            let canned = tower::service_fn(move |_req: Request<Bytes>| {
+                let b = b2.clone();
+                async move { Ok::<_, std::convert::Infallible>(Response::new(b)) }
+            });
+            let mut c = gen::root_greeter::greeter_client::GreeterClient::new(canned);
+            match std::panic::catch_unwind(std::panic::AssertUnwindSafe(|| rt.block_on(c.say_hello(Msg { a: 1, s: "x".into() })))) {
+                Ok(Err(_)) => {}
+                Ok(Ok(_)) => mismatches.push(json!({"what": format!("a bincode response with length prefix {len} surfaced as a success")})),
+                Err(_) => mismatches.push(json!({"what": format!("the generated client panicked on a bincode response whose length prefix claims {len} bytes")})),
+            }
+        }
+    }
     // a response the client cannot decode, and a non-success status, surface as Err
     {
         evaluations += 2;
